@@ -1,7 +1,7 @@
-(* C06 — lemmas, part 3: the statements of Properties/C06.v assembled from Proofs.v and Proofs2.v *)
+(* C06 — lemmas, part 3: the statements of Properties/C06.v assembled from the other proof files *)
 From Coq Require Import List NArith ZArith Bool.
 Import ListNotations.
-From Verif.C06 Require Import Model Proofs Proofs2.
+From Verif.C06 Require Import Model Proofs Utf8 Proofs2 Proofs4 Proofs5.
 Local Open Scope N_scope.
 
 Lemma T_nf_closed_constructors : forall (s us cps rs : list N),
@@ -35,8 +35,8 @@ Proof.
   | exact (proj2 (from_utf16_spec us)) | exact (proj2 (from_code_points_spec cps))].
 Qed.
 
-Lemma T_strop_eq_spec_partial : forall a b s e i, nf a = true -> nf b = true ->
-  (both_unscanned a b = false -> units (concat a b) = units a ++ units b) /\
+Lemma T_strop_eq_spec : forall a b s e i, nf a = true -> nf b = true ->
+  units (concat a b) = units a ++ units b /\
   units (substring a s e) = cut (units a) s e /\
   char_at a i = nth i (units a) 0 /\
   length_of a = length (units a) /\
@@ -47,19 +47,81 @@ Proof.
   | exact (length_of_spec a) | exact (units_devirt a)].
 Qed.
 
-Lemma T_strict_equals_partial : forall a b, nf a = true -> nf b = true -> both_imported a b = false ->
-  (strict_equals a b = true <-> units a = units b).
+Lemma T_builtins_eq_spec : forall a f (s e : Z) (n : nat) (st up' : bool) (m : N) l1 l2 l3,
+  nf a = true -> nf f = true ->
+  units (i_slice a s e) = s_slice (units a) s e /\
+  units (i_substring a s e) = s_substring (units a) s e /\
+  units (i_substr a s e) = s_substr (units a) s e /\
+  units (i_at a s) = s_at (units a) s /\
+  units (i_char_at a s) = s_char_at (units a) s /\
+  units (i_repeat a n) = s_repeat (units a) n /\
+  units (i_pad a s f st) = s_pad (units a) s (units f) st /\
+  units (concat_strings (lit_part l1 ++ [a] ++ lit_part l2 ++ [f] ++ lit_part l3)) = l1 ++ units a ++ l2 ++ units f ++ l3 /\
+  units (i_trim m a) =
+    (if m =? 0 then s_trim (units a) else if m =? 1 then s_trim_start (units a) else s_trim_end (units a)) /\
+  units (i_case up' a) = map (if up' then up else low) (units a).
 Proof.
-  intros a b Ha Hb Hi. split;
-  [exact (Proofs2.strict_equals_sound a b Ha Hb) | exact (strict_equals_complete a b Ha Hb Hi)].
+  intros a f s e n st up' m l1 l2 l3 Ha Hf. repeat split;
+  [ exact (i_slice_units a s e Ha) | exact (i_substring_units a s e Ha) | exact (i_substr_units a s e Ha)
+  | exact (i_at_units a s Ha) | exact (i_char_at_units a s Ha) | exact (i_repeat_units a n Ha)
+  | exact (i_pad_units a s f st Ha Hf) | exact (template_units l1 a l2 f l3 Ha Hf)
+  | exact (i_trim_units m a Ha) | exact (i_case_units up' a) ].
 Qed.
 
-Lemma T_key_hash_agree : forall a b, nf a = true -> nf b = true ->
-  (raw_key a = raw_key b <-> units a = units b) /\ (hash_bytes a = hash_bytes b <-> units a = units b).
+Lemma T_eq_hash_key_agree : forall a b, nf a = true -> nf b = true ->
+  (strict_equals a b = true <-> units a = units b) /\
+  (same_as a b = true <-> units a = units b) /\
+  (equals a b = true <-> units a = units b) /\
+  (raw_key a = raw_key b <-> units a = units b) /\
+  (hash_bytes a = hash_bytes b <-> units a = units b) /\
+  (map_hit a b = true <-> units a = units b) /\
+  (objkey_hit a b = true <-> units a = units b).
 Proof.
-  intros a b Ha Hb. split; [exact (raw_key_spec a b Ha Hb)|].
-  rewrite !hash_bytes_raw_key. exact (raw_key_spec a b Ha Hb).
+  intros a b Ha Hb. repeat split;
+  try (apply (strict_equals_iff a b Ha Hb)); try (apply (equals_iff a b Ha Hb));
+  try (apply (raw_key_spec a b Ha Hb)); try (apply (map_hit_iff a b Ha Hb)); try (apply (objkey_hit_iff a b Ha Hb));
+  rewrite !hash_bytes_raw_key; apply (raw_key_spec a b Ha Hb).
 Qed.
 
 Lemma T_lex_order : forall a b, (lex a b = Eq <-> a = b) /\ CompOpp (lex a b) = lex b a.
 Proof. intros a b. split; [exact (lex_eq a b) | exact (lex_opp a b)]. Qed.
+
+(* end to end: two expression trees (no JSON node) with the same reference value are indistinguishable through every
+   observable of the model, whatever representations they end up in *)
+Lemma T_equal_trees_indistinguishable : forall e1 e2, plain e1 = true -> plain e2 = true -> seval e1 = seval e2 ->
+  let a := ieval e1 in let b := ieval e2 in
+  strict_equals a b = true /\ strict_equals b a = true /\ same_as a b = true /\ equals a b = true /\
+  compare_to a b = Eq /\ compare_to b a = Eq /\
+  map_hit a b = true /\ map_hit b a = true /\ objkey_hit a b = true /\ hash_bytes a = hash_bytes b /\
+  length_of a = length_of b /\ (forall i, char_at a i = char_at b i).
+Proof.
+  intros e1 e2 H1 H2 H a b.
+  assert (Hu : units a = units b) by (unfold a, b; rewrite !ieval_units by assumption; exact H).
+  pose proof (ieval_nf e1) as Ha. pose proof (ieval_nf e2) as Hb. fold a in Ha. fold b in Hb.
+  destruct (T_eq_hash_key_agree a b Ha Hb) as (Q1 & Q2 & Q3 & Q4 & Q5 & Q6 & Q7).
+  destruct (T_eq_hash_key_agree b a Hb Ha) as (R1 & R2 & R3 & R4 & R5 & R6 & R7).
+  repeat split; try (apply Q1; exact Hu); try (apply R1; symmetry; exact Hu); try (apply Q2; exact Hu);
+    try (apply Q3; exact Hu); try (apply Q6; exact Hu); try (apply R6; symmetry; exact Hu);
+    try (apply Q7; exact Hu); try (apply Q5; exact Hu).
+  - rewrite compare_to_spec, Hu. apply lex_eq. reflexivity.
+  - rewrite compare_to_spec, Hu. apply lex_eq. reflexivity.
+  - rewrite !length_of_spec, Hu. reflexivity.
+  - intros i. rewrite !char_at_spec, Hu. reflexivity.
+Qed.
+
+Lemma T_different_trees_ordered : forall e1 e2, plain e1 = true -> plain e2 = true -> seval e1 <> seval e2 ->
+  strict_equals (ieval e1) (ieval e2) = false /\ map_hit (ieval e1) (ieval e2) = false /\
+  objkey_hit (ieval e1) (ieval e2) = false /\ compare_to (ieval e1) (ieval e2) = lex (seval e1) (seval e2) /\
+  compare_to (ieval e1) (ieval e2) <> Eq.
+Proof.
+  intros e1 e2 H1 H2 H.
+  pose proof (ieval_nf e1) as Ha. pose proof (ieval_nf e2) as Hb.
+  destruct (T_eq_hash_key_agree _ _ Ha Hb) as (Q1 & _ & _ & _ & _ & Q6 & Q7).
+  rewrite !ieval_units in * by assumption.
+  repeat split.
+  - destruct (strict_equals (ieval e1) (ieval e2)); [exfalso; apply H; apply Q1; reflexivity|reflexivity].
+  - destruct (map_hit (ieval e1) (ieval e2)); [exfalso; apply H; apply Q6; reflexivity|reflexivity].
+  - destruct (objkey_hit (ieval e1) (ieval e2)); [exfalso; apply H; apply Q7; reflexivity|reflexivity].
+  - rewrite compare_to_spec, !ieval_units by assumption. reflexivity.
+  - rewrite compare_to_spec, !ieval_units by assumption. intro E. apply H. apply lex_eq. exact E.
+Qed.
